@@ -32,6 +32,9 @@ type Solver struct {
 	// stats
 	nFeas, nAssert     int
 	nSat, nUnsat, nUnk int
+	tag    string
+	byTag  map[string]int
+	byTagT map[string]time.Duration
 	wall               time.Duration
 	timeoutMs          int
 	errors             []string
@@ -206,6 +209,13 @@ func (s *Solver) Check(extra *Term, isAssert bool) SatResult {
 		res = s.readResult()
 	}
 	s.wall += time.Since(start)
+	if s.byTag == nil {
+		s.byTag, s.byTagT = map[string]int{}, map[string]time.Duration{}
+	}
+	k := fmt.Sprintf("%s/%d", s.tag, res)
+	s.byTag[k]++
+	s.byTagT[k] += time.Since(start)
+	s.tag = ""
 	switch res {
 	case Sat:
 		s.nSat++
